@@ -61,7 +61,8 @@ bool add_items(metatype &to, const node *head, const relation *relation, logger 
 		if (grp && from && from->addref()) {
 			reference<metatype> m;
 			m.set_instance(from);
-			if (grp->append(&head->ident, from) < 0) {
+			// reference is taken over by the new group item
+			if (grp->append(&head->ident, from) >= 0) {
 				m.detach();
 			}
 			else if (out) {
